@@ -212,7 +212,8 @@ func newDateTime(argumentList []Value, location *Time.Location) float64 {
 			return math.NaN()
 		}
 
-		if year >= 0 && year <= 99 {
+		// The two-digit rule applies to ToInteger(year) (ECMA 262 15.9.4.3 step 8).
+		if year = math.Trunc(year); year >= 0 && year <= 99 {
 			year += 1900
 		}
 
